@@ -148,7 +148,15 @@ func (m *c14Map) Iter(f maps.IterCallback) error {
 			for i, k := range remaining {
 				opts[i] = m.w.keyName(k)
 			}
-			ch := m.w.hook("visit", opts)
+			hopts := opts
+			if m.w.fUsed < m.w.maxF && !m.w.co.auto {
+				hopts = append(append([]string(nil), opts...), "!EINTR") // the iteration syscall fails here
+			}
+			ch := m.w.hook("visit", hopts)
+			if ch == "!EINTR" {
+				m.w.fUsed++
+				return unix.EINTR
+			}
 			for i, o := range opts {
 				if o == ch {
 					idx = i
@@ -173,6 +181,13 @@ func (m *c14Map) Iter(f maps.IterCallback) error {
 }
 
 func (m *c14Map) Update(k, v []byte) error {
+	if m == m.w.ccq && m.w.armedCCQ != "" && m.w.armedCCQ == string(k) {
+		// the environment makes writes of this cleanup-queue entry fail for the rest of this scan (armed
+		// by key and persistent within the scan: the delta tracker applies its pending updates in Go map
+		// order and retries an entry or not depending on its position in the batch, so a one-shot
+		// failure would make the outcome depend on map order)
+		return unix.EINTR
+	}
 	if rc := m.m.Update(k, v, 0); rc != 0 {
 		return unix.Errno(rc)
 	}
@@ -190,7 +205,15 @@ func (m *c14Map) BatchUpdate(ks, vs [][]byte, flags uint64) (int, error) {
 
 func (m *c14Map) Get(k []byte) ([]byte, error) {
 	if m.hooked {
-		m.w.hook("get", nil)
+		// the environment may answer a lookup with a transient error (EINTR) instead of the value
+		var opts []string
+		if m.w.fUsed < m.w.maxF && !m.w.co.auto {
+			opts = []string{"ok", "!EINTR"}
+		}
+		if m.w.hook("get", opts) == "!EINTR" {
+			m.w.fUsed++
+			return nil, unix.EINTR
+		}
 	}
 	v, ok := m.m.Lookup(k)
 	if !ok {
@@ -251,6 +274,7 @@ type c14Conn struct {
 	Key     KeyInterface // normal key or reverse (tracking) key
 	FwdKey  KeyInterface // NAT only
 	NAT     bool
+	Rebound bool   // the forward entry was re-created for a new backend (points at a different reverse key)
 	Flags   uint32 // conntrack flags of the tracking entry (DSR)
 	RST     string // value.rst_seen timestamp: "" = 0, "old" = 10 min before creation, "recent" = last_seen
 }
@@ -271,11 +295,15 @@ type c14World struct {
 	names   map[string]string // key bytes -> name
 
 	inCleaner bool
+	scanning  bool // a (non-epilogue) scan goroutine is running
 	fault     string
 	fails     []c14Fail
 	deleted   []string // log of deletions (for outcomes)
 	scans     int
 	pUsed     int
+	fUsed     int    // transient map-operation failures injected so far
+	armedCCQ  string // key whose next cleanup-queue write fails
+	maxF      int
 	tUsed     int
 	key       string // cached state key
 }
@@ -583,6 +611,7 @@ func (w *c14World) startScan() {
 	w.co.resume = make(chan string)
 	w.co.parked = make(chan *c14Hook)
 	w.co.trail = nil
+	w.scanning = true
 	go func() {
 		defer func() { w.co.parked <- nil }()
 		defer func() {
@@ -595,6 +624,8 @@ func (w *c14World) startScan() {
 	w.co.at = <-w.co.parked
 	if w.co.at == nil {
 		w.scans++
+		w.scanning = false
+		w.armedCCQ = ""
 	}
 }
 
@@ -604,6 +635,8 @@ func (w *c14World) stepScan(choice string) {
 	w.co.at = <-w.co.parked
 	if w.co.at == nil {
 		w.scans++
+		w.scanning = false
+		w.armedCCQ = ""
 	}
 }
 
@@ -636,7 +669,7 @@ func (w *c14World) dumpMap(m *ebpf.HashMap) string {
 
 func (w *c14World) stateKey() string {
 	var b strings.Builder
-	fmt.Fprintf(&b, "now=%d|scans=%d|p=%d|t=%d|ct=%s|ccq=%s|", w.clock.now, w.scans, w.pUsed, w.tUsed, w.dumpMap(w.ct.m), w.dumpMap(w.ccq.m))
+	fmt.Fprintf(&b, "now=%d|scans=%d|p=%d|t=%d|f=%d|armed=%x|ct=%s|ccq=%s|", w.clock.now, w.scans, w.pUsed, w.tUsed, w.fUsed, w.armedCCQ, w.dumpMap(w.ct.m), w.dumpMap(w.ccq.m))
 	if w.co.at != nil {
 		fmt.Fprintf(&b, "at=%s%v|trail=%v|", w.co.at.Kind, w.co.at.Options, w.co.trail)
 	}
